@@ -35,6 +35,7 @@ META = {
 
 ALLOWED_TAGS = {'li', 'b', 'p', 'br', 'ul', 'i', 'a'}
 CANARY = 'zqCANARYqz'
+CANARIES = ['<i id=%s>' % CANARY, '"%s=\'1' % CANARY, '&%s;<' % CANARY]
 
 
 def shards(tier):
@@ -207,10 +208,11 @@ def check_request(app, template, query, ajax, viols, stats, env_kw=None, label='
         except Exception as e:  # noqa: B902
             add(viols, 'C18|html|results-unparseable', 'results segment cannot be parsed: %r' % e, w)
             return expect
-        bad = [t for t in p.tags if t not in ALLOWED_TAGS]
-        if bad or p.attr_problems:
-            add(viols, 'C18|html|markup-injected', 'query %r produced tags %r / attributes %r in the results list' % (
-                query[:160], bad[:5], p.attr_problems[:3]), w)
+        canary_attrs = [a for a in p.attr_problems if CANARY in (a[1] or '') or CANARY in (a[2] or '')]
+        raw_echo = [c for c in CANARIES if c in num and c in results_seg]
+        if canary_attrs or raw_echo or any(CANARY in t for t in p.tags):
+            add(viols, 'C18|html|markup-injected', 'query %r: the submitted text reaches the results list unescaped (raw %r, attributes %r)' % (
+                query[:160], raw_echo[:2], canary_attrs[:2]), w)
         elif p.items != len(expect):
             add(viols, 'C18|html|result-set-differs', 'query %r: page lists %d formats, is_valid sweep gives %d (%r)' % (
                 query[:120], p.items, len(expect), expect[:6]), w)
@@ -245,7 +247,7 @@ def req_work(shard, tier, viols, stats, counters, samples):
         for v in nums:
             queries.append(('valid:' + name, 'number=' + quote(v)))
         for v in nums[:2]:
-            for can in ('<i id=%s>' % CANARY, '"%s=\'1' % CANARY, '&%s;<' % CANARY, '%%(%s)s' % CANARY):
+            for can in CANARIES + ['%%(%s)s' % CANARY]:
                 for p in gen.positions(len(v), 'quick', rng, extra=0)[:5 if tier == 'quick' else 9]:
                     queries.append(('canary:' + name, 'number=' + quote(v[:p] + can + v[p:])))
     if shard['name'].endswith('00'):
